@@ -5,6 +5,7 @@ package harness
 import (
 	"fmt"
 	"math"
+	"os"
 	"sort"
 
 	ethcrypto "github.com/ethereum/go-ethereum/crypto"
@@ -31,6 +32,11 @@ type Profile struct {
 	VaryGas              bool
 	ContractGasCap       uint64
 	Inject               bool // generate CheckTx/Query injections (C06, C19)
+	NonceChaos           bool   // more gaps / stale nonces
+	GovFocus             string // option documents mostly change this parameter
+	TightMaxVals         bool   // validator-count limit close to the number of candidates
+	SmallPowers          bool   // powers 1..3 (slashing forfeiture boundary)
+	HostileDocs          bool   // option documents that pass validation but are odd
 }
 
 func defaultWeights() map[string]int {
@@ -42,7 +48,7 @@ func defaultWeights() map[string]int {
 
 func defaultProfile() *Profile {
 	return &Profile{MinBlocks: 6, MaxBlocks: 24, MaxTxs: 6, W: defaultWeights(), PFault: 12, PEvidence: 5,
-		PAbsent: 6, PNoProposer: 5, MaxVals: 5, Users: 3, SmallWindows: true, EarlyQuiet: true, OneGenesisUnbond: true,
+		PAbsent: 6, PNoProposer: 5, MaxVals: 5, Users: 3, SmallWindows: true, EarlyQuiet: true, OneGenesisUnbond: false,
 		ContractGasCap: 1_000_000}
 }
 
@@ -74,6 +80,7 @@ type GenSource struct {
 	sentOK  [][]byte // earlier delivered txs (for replay ops)
 	sentAll [][]byte
 	fresh   [][]byte // valid txs built against the state committed before the current block (never delivered)
+	offline map[string]int64 // validator address -> offline (not signing) up to and including this height
 	// hooks for engines that extend the schedule
 	OnEndBlock  func(w *World, b *Block)
 	hostileHook func(w *World) ([]byte, string, bool)
@@ -152,6 +159,11 @@ func weighted(t *rapid.T, w map[string]int, label string) string {
 }
 
 func NewGenSource(t *rapid.T, p *Profile) *GenSource {
+	if os.Getenv("VERIF_NO_EXCLUSIONS") != "" {
+		q := *p
+		q.EarlyQuiet, q.OneGenesisUnbond = false, false
+		p = &q
+	}
 	s := &GenSource{t: t, P: p}
 	s.g = s.genGenesis()
 	s.nBlocks = p.MinBlocks + unif(t, p.MaxBlocks-p.MinBlocks+1, "nBlocks")
@@ -164,6 +176,9 @@ func (s *GenSource) genParams(nVals int, minValPower int64) *Params {
 	t := s.t
 	p := baseParams()
 	p.MaxValidatorCnt = int64(rapid.IntRange(nVals, nVals+3).Draw(t, "maxValidatorCnt"))
+	if s.P.TightMaxVals {
+		p.MaxValidatorCnt = int64(nVals + unif(t, 2, "maxValidatorCntTight"))
+	}
 	p.MinValidatorStake = rigo(uint64(minValPower)).Dec()
 	lim := s.P.Limiter
 	if lim == 0 {
@@ -200,6 +215,9 @@ func (s *GenSource) genGenesis() *Genesis {
 		name := fmt.Sprintf("V%d", i)
 		s.vals = append(s.vals, actorNamed(name))
 		pw := minValPower + int64(pick(t, []int{0, 1, 9, 9, 50, 100, 1000}, "valPowerExtra"))
+		if s.P.SmallPowers {
+			pw = minValPower + int64(unif(t, 3, "valPowerSmall"))
+		}
 		g.Validators = append(g.Validators, GenVal{Actor: name, Power: pw})
 		g.Balances = append(g.Balances, GenBal{Actor: name, Balance: rigo(uint64(rapid.IntRange(50, 2000).Draw(t, "valBal"))).Dec()})
 	}
@@ -230,12 +248,34 @@ func (s *GenSource) StartBlock(w *World) *Block {
 	if len(cur) > 0 && !pct(t, s.P.PNoProposer, "noProposer") {
 		b.Proposer = pick(t, cur, "proposer").Addr
 	}
-	if h >= 2 {
-		for _, e := range setEntries(w.TM.At(h - 1)) {
-			b.Votes = append(b.Votes, Vote{Addr: e.Addr, Power: e.Power, Signed: !pct(t, s.P.PAbsent, "absent")})
+	if h >= 4 && s.P.PAbsent > 0 && pct(t, s.P.PAbsent/2+2, "downtimeStarts") {
+		if cur1 := setEntries(w.TM.At(h - 1)); len(cur1) > 0 {
+			if s.offline == nil {
+				s.offline = map[string]int64{}
+			}
+			v := pick(t, cur1, "downtimeWho")
+			s.offline[ak(v.Addr)] = h - 1 + int64(1+unif(t, int(min64(w.Params.SignedBlocksWindow, 12))+1, "downtimeLen"))
 		}
 	}
-	if h >= 2 && pct(t, s.P.PEvidence, "hasEvidence") {
+	if h >= 2 {
+		for _, e := range setEntries(w.TM.At(h - 1)) {
+			signed := !pct(t, s.P.PAbsent, "absent")
+			if until, off := s.offline[ak(e.Addr)]; off && h-1 <= until {
+				signed = false
+			}
+			if !signed && s.P.EarlyQuiet && h <= 3 {
+				w.Excluded["F9:absentee_in_blocks_1_3"]++
+				signed = true
+			}
+			b.Votes = append(b.Votes, Vote{Addr: e.Addr, Power: e.Power, Signed: signed})
+		}
+	}
+	hasEv := h >= 2 && pct(t, s.P.PEvidence, "hasEvidence")
+	if hasEv && s.P.EarlyQuiet && h <= 3 {
+		w.Excluded["F9:evidence_in_blocks_1_3"]++
+		hasEv = false
+	}
+	if hasEv {
 		n := rapid.IntRange(1, 2).Draw(t, "nEvidence")
 		for i := 0; i < n; i++ {
 			b.Evidence = append(b.Evidence, s.genEvidence(w, h))
@@ -340,6 +380,13 @@ func (s *GenSource) genQuery(w *World, pos int) Injected {
 		q.Height = pick(t, []int64{-1, math.MinInt64, math.MaxInt64}, "qOddHeight")
 	}
 	return q
+}
+
+func min64(a, b int64) int64 {
+	if a < b {
+		return a
+	}
+	return b
 }
 
 func (s *GenSource) genEvidence(w *World, h int64) Evid {
@@ -486,6 +533,10 @@ func (s *GenSource) genTx(w *World, b *Block) ([]byte, string) {
 		}
 	}
 	op := weighted(t, wts, "op")
+	if s.P.EarlyQuiet && h <= 1 && (op == "stake" || op == "unstake") {
+		w.Excluded["F11:staking_tx_in_block_1"]++
+		op = "transfer"
+	}
 	sp := &txSpec{amount: u256(0), gas: w.Params.MinTrxGas}
 
 	switch op {
@@ -538,6 +589,9 @@ func (s *GenSource) genTx(w *World, b *Block) ([]byte, string) {
 			sp.to = pick(t, s.all, "toAny").Addr
 		}
 		units := uint64(pick(t, []int{1, 1, 2, 3, 5, 10, 50}, "units"))
+		if s.P.SmallPowers {
+			units = uint64(1 + unif(t, 3, "unitsSmall"))
+		}
 		if _, isDeleg := w.Delegs[ak(sp.to)]; !isDeleg && string(sp.to) == string(sp.from.Addr) && pct(t, 85, "enoughSelfStake") {
 			units += uint64(w.Params.minValidatorPower())
 		}
@@ -586,6 +640,8 @@ func (s *GenSource) genTx(w *World, b *Block) ([]byte, string) {
 		}
 		if s.excludeUnstake(w, sp, id, h) {
 			id = txHashOf([]byte("excluded"))
+		} else if s.wouldEmptyValidators(w, sp, id) && pct(t, 90, "keepLastValidator") {
+			id = txHashOf([]byte("keep-last-validator"))
 		}
 		sp.payload = &ctypes.TrxPayloadUnstaking{TxHash: id}
 		sp.note = fmt.Sprintf("unstake %s of %x@%x", sp.from.Name, id[:4], sp.to[:4])
@@ -728,6 +784,31 @@ func (s *GenSource) isGenesisVal(addr []byte) bool {
 	return false
 }
 
+// wouldEmptyValidators: releasing this stake would leave no eligible delegatee at all
+// (the engine halts on an empty validator set, which only ends the history early).
+func (s *GenSource) wouldEmptyValidators(w *World, sp *txSpec, id []byte) bool {
+	d, ok := w.Delegs[ak(sp.to)]
+	if !ok || sp.from == nil || string(sp.from.Addr) != string(d.Addr) {
+		return false
+	}
+	minP := w.Params.minValidatorPower()
+	eligible := 0
+	for _, x := range w.Delegs {
+		if x.self() >= minP {
+			eligible++
+		}
+	}
+	if eligible > 1 || d.self() < minP {
+		return false
+	}
+	for _, st := range d.Stakes {
+		if string(st.TxHash) == string(id) && string(st.Owner) == string(d.Addr) {
+			return d.self()-st.Power < minP
+		}
+	}
+	return false
+}
+
 // excludeUnstake implements the generator-side exclusions for recorded findings.
 func (s *GenSource) excludeUnstake(w *World, sp *txSpec, id []byte, h int64) bool {
 	var target *MStake
@@ -791,10 +872,18 @@ func (s *GenSource) genOption(w *World) []byte {
 	case 3:
 		return []byte(`{"maxValidatorCnt":3}`) // number instead of string: rejected by the decoder
 	}
+	if s.P.HostileDocs && pct(t, 25, "hostileDoc") {
+		return []byte(pick(t, []string{`{"gasPrice":""}`, `{"rewardPerPower":""}`, `{"minValidatorStake":""}`, `{"version":"2","gasPrice":""}`, `{"gasPrice":"10","minDelegatorStake":""}`, `{"x":""}`, `{}`, `{"slashRatio":"7","y":"z"}`}, "hostileDocPick"))
+	}
 	o := &Params{}
 	n := 1 + unif(t, 3, "nFields")
+	focus := map[string]int{"maxValidatorCnt": 0, "minValidatorStake": 1, "rewardPerPower": 2, "lazyRewardBlocks": 3, "gasPrice": 5, "minTrxGas": 6, "slashRatio": 7}
 	for i := 0; i < n; i++ {
-		switch unif(t, 12, "field") {
+		f := unif(t, 12, "field")
+		if fi, ok := focus[s.P.GovFocus]; ok && i == 0 && pct(t, 75, "focusField") {
+			f = fi
+		}
+		switch f {
 		case 0:
 			o.MaxValidatorCnt = int64(rapid.IntRange(1, 6).Draw(t, "oMaxVal"))
 		case 1:
@@ -889,6 +978,9 @@ func (s *GenSource) finish(w *World, sp *txSpec) ([]byte, string) {
 	signer := sp.from
 	chain := w.ChainID
 	fault := ""
+	if s.P.NonceChaos && pct(t, 15, "nonceGap") {
+		nonce += uint64(1 + unif(t, 2, "nonceGapBy"))
+	}
 	if pct(t, s.P.PFault, "fault") {
 		fault = pick(t, []string{"nonce+1", "nonce-1", "nonce+5", "price+1", "price-1", "price0", "gasLow", "gas0", "gasHuge", "sigFlip", "otherKey", "otherChain", "noSig", "stranger"}, "faultKind")
 		switch fault {
